@@ -121,6 +121,8 @@ package roundrobin
 //@   ensures failure_keeps_records: result != nil ==> len(rb.servers) == old(len(rb.servers))
 //@   ensures weights_restored: result == nil ==> (forall i int :: 0 <= i && i < len(rb.servers) ==> rb.servers[i].curWeight == rb.servers[i].origWeight)
 //@   ensures balancer_first: calls(rb.next.UpsertServer) >= 1 && callarg(rb.next.UpsertServer, 0, 0) == u
+//@   ensures failed_add_rolled_back: result != nil && callres(rb.next.UpsertServer, 0, 0) == nil ==> calls(rb.next.RemoveServer) == 1 && callarg(rb.next.RemoveServer, 0, 0) == u
+//@   ensures success_keeps_member: result == nil ==> calls(rb.next.RemoveServer) == 0 && callres(rb.next.UpsertServer, 0, 0) == nil
 
 //@ func (*Rebalancer).Servers
 //@   props C02 C11
